@@ -62,6 +62,11 @@ pub struct Written<const K: usize> {
 /// (the chunk-flush decision `chunk duration >= track timescale` is still explored for every
 /// duration); `t_h01sym__*` keeps both symbolic for K=1.
 pub static mut TIMESCALES: Option<(u32, u32)> = Some((1000, 90000));
+/// `FIXED_DUR` = Some(d): every sample gets the concrete duration d (no chunk is flushed inside
+/// write_sample when d is far below the timescale, which removes the flush branching: this is what
+/// makes a two-sample history affordable in the quick tier; sizes, offsets, sync flags and payload
+/// bytes stay symbolic).
+pub static mut FIXED_DUR: Option<u32> = None;
 
 pub fn run_history<const K: usize>(kind: Kind, lens: [usize; K], out: &mut [u8; 16], dur_limit: u32) -> Option<(VerifTrackWriter, Written<K>)> {
     let (track_ts, movie_ts) = match unsafe { TIMESCALES } {
@@ -87,6 +92,9 @@ pub fn run_history<const K: usize>(kind: Kind, lens: [usize; K], out: &mut [u8; 
     let mut i = 0;
     while i < K {
         kani::assume(w.dur[i] < dur_limit);
+        if let Some(d) = unsafe { FIXED_DUR } {
+            kani::assume(w.dur[i] == d);
+        }
         let s = Mp4Sample {
             start_time: 0,
             duration: w.dur[i],
@@ -509,6 +517,84 @@ fn q_h01ts__ttxt_k1_len1_ts90000_movie600() {
 fn t_h01ts__ttxt_k2_len11_ts90000_movie600() {
     unsafe { TIMESCALES = Some((90000, 600)) };
     h01_hist::<2>(Kind::Ttxt, [1, 1])
+}
+
+/// Light two-sample history for the quick tier: only the *totals* of the run-length tables are
+/// checked (each table accounts for exactly K samples) plus per-sample size and duration of the
+/// last sample -- no full interpretation of the chunk map (that is `h01_hist`, whose K=2 instances
+/// take ~400 s and live in the thorough tier).
+pub fn h01_sums<const K: usize>(lens: [usize; K]) {
+    let mut out = [0u8; 16];
+    let (tw, w) = match run_history::<K>(Kind::Ttxt, lens, &mut out, DUR_LIMIT) {
+        Some(x) => x,
+        None => {
+            assert!(false, "C01 a valid configuration is accepted");
+            return;
+        }
+    };
+    let trak = tw.into_trak();
+    let stbl = &trak.mdia.minf.stbl;
+    assert!(stbl.stsz.sample_count == K as u32, "C01 sample count equals the number written");
+    let mut n: u64 = 0;
+    let mut r = 0;
+    while r < K {
+        if r < stbl.stts.entries.len() {
+            n += stbl.stts.entries[r].sample_count as u64;
+        }
+        r += 1;
+    }
+    assert!(stbl.stts.entries.len() <= K && n == K as u64, "C01 the time-to-sample runs account for exactly the samples written");
+    if let Some(ref ctts) = stbl.ctts {
+        let mut n: u64 = 0;
+        let mut r = 0;
+        while r < K {
+            if r < ctts.entries.len() {
+                n += ctts.entries[r].sample_count as u64;
+            }
+            r += 1;
+        }
+        assert!(ctts.entries.len() <= K && n == K as u64, "C01 the composition-offset runs account for exactly the samples written");
+        // the last run carries the last sample's offset
+        if K > 0 && ctts.entries.len() >= 1 && ctts.entries.len() <= K {
+            assert!(ctts.entries[ctts.entries.len() - 1].sample_offset == w.cts[K - 1], "C01 last sample has the written rendering offset");
+        }
+        kani::cover!(ctts.entries.len() == 2, "(opt) two composition runs");
+    } else {
+        let mut i = 0;
+        while i < K {
+            assert!(w.cts[i] == 0, "C01 no composition table only when every offset is zero");
+            i += 1;
+        }
+    }
+    if K > 0 && stbl.stts.entries.len() >= 1 && stbl.stts.entries.len() <= K {
+        assert!(stbl.stts.entries[stbl.stts.entries.len() - 1].sample_delta == w.dur[K - 1], "C01 last sample has the written duration");
+    }
+    kani::cover!(true, "history completed");
+    std::mem::forget(trak);
+}
+#[kani::proof]
+#[kani::unwind(5)]
+fn q_h01sums__ttxt_k2_len11() {
+    h01_sums::<2>([1, 1])
+}
+#[kani::proof]
+#[kani::unwind(6)]
+fn t_h01sums__ttxt_k3_len111() {
+    h01_sums::<3>([1, 1, 1])
+}
+
+/// two samples, concrete small durations (one chunk, flushed at the end), everything else symbolic
+#[kani::proof]
+#[kani::unwind(5)]
+fn t_h01fix__ttxt_k2_len11_dur1() {
+    unsafe { FIXED_DUR = Some(1) };
+    h01_hist::<2>(Kind::Ttxt, [1, 1])
+}
+#[kani::proof]
+#[kani::unwind(5)]
+fn t_h01fix__ttxt_k2_len12_dur1() {
+    unsafe { FIXED_DUR = Some(1) };
+    h01_hist::<2>(Kind::Ttxt, [1, 2])
 }
 
 // every media kind, one sample
